@@ -922,6 +922,13 @@ class State:
             env[target['id']] = v
             return
         if k == 'Unary' and target['op'] == 'Deref':
+            inner = target['a']
+            if inner.get('k') == 'Path' and inner.get('res') == 'local' and (inner.get('ty') or '').startswith('&'):
+                cur = env.get(inner['id'])
+                if cur is not None and cur[0] not in ('lit', 'ctor', 'list', 'tup'):
+                    # write through a reference to something we do not own: an observable store
+                    self.effect('store', '*' + (inner.get('name') or '?'), (cur, v), target)
+                    return
             return self.place_assign(target['a'], v, env)
         if k == 'Field':
             base = self.expr(target['e'], env)
